@@ -22,6 +22,33 @@ def recomputes_ro(func):
     return cfg.must_pass_after(cfg.entry, p)
 
 
+def _fresh_table_only_when_absent(init):
+    """over the path summaries of AdapterRegistry.__init__: every path that binds
+    self._v_subregistries has ESTABLISHED that the registry has no link table yet
+    (membership test of the instance dict false, hasattr false, or the read raised
+    AttributeError) - a guard that is always true, or that tests something else,
+    replaces the table of a live registry when rebuild() re-runs __init__"""
+    from . import sem as _sem
+    ss = _sem.normal(_sem.summaries(init))
+    if not ss:
+        return False
+    for ps in ss:
+        binds = [e for e in ps.events if e.kind == 'store' and
+                 _sem.nt(e.r) == 'self._v_subregistries']
+        if not binds:
+            continue
+        absent = False
+        for c, t, p in ps.order:
+            if c in ("'_v_subregistries' in self.__dict__", "'_v_subregistries' in vars(self)",
+                     "hasattr(self, '_v_subregistries')") and t is False:
+                absent = True
+            if c == 'EXCEPT(AttributeError)' and t is True:
+                absent = True
+        if not absent:
+            return False
+    return True
+
+
 def run(rep):
     repo = rep.repo
     mod = repo.module('adapter.py')
@@ -153,9 +180,9 @@ def run(rep):
         for name, st in rebinds:
             if name != '__init__':
                 continue
-            guarded = isinstance(st.parent, (ast.If, ast.Try)) or \
-                bool(find_all(st.value, 'getattr(self, $$a)')) or \
-                bool(find_all(st.value, "self.__dict__.get($$a)"))
+            guarded = bool(find_all(st.value, 'getattr(self, $$a)')) or \
+                bool(find_all(st.value, "self.__dict__.get($$a)")) or \
+                _fresh_table_only_when_absent(methods_of(ar)['__init__'])
             saved = bool(find_all(m, '$x = self._v_subregistries', 'exec')) and \
                 bool(find_all(m, 'self._v_subregistries = $x', 'exec'))
             if not guarded and not saved:
